@@ -192,7 +192,12 @@ func gsapOutOfWindowNeighbours(cc PCfg, b blockRec) bool {
 // genRunHistory: stream = prefix . c^R . suffix, delivered so that blocks of at
 // least 32 bytes fall inside the run (at its start, middle and end, after a
 // Shrink, after a refill). Flags 0.
-func genRunHistory(t *rapid.T, x *parserExec) {
+func genRunHistory(t *rapid.T, x *parserExec) { genRunHistoryOpt(t, x, 0) }
+
+// noiseBlocks > 0: the prefix is noiseBlocks whole blocks of bytes that hardly
+// repeat (more than a thousand positions without a match), everything is
+// written at once, so the run begins exactly at a block start.
+func genRunHistoryOpt(t *rapid.T, x *parserExec, noiseBlocks int) {
 	cc := x.cc
 	var c byte
 	switch weighted(t, "cKind", 3, 2, 3) {
@@ -230,6 +235,19 @@ func genRunHistory(t *rapid.T, x *parserExec) {
 		}
 		prefix = append(prefix, sep)
 	}
+	if noiseBlocks > 0 {
+		prefix = make([]byte, noiseBlocks*cc.BlockSize)
+		z := rapid.Uint64().Draw(t, "noiseSeed")
+		for i := range prefix {
+			z += 0x9e3779b97f4a7c15
+			y := (z ^ (z >> 30)) * 0xbf58476d1ce4e5b9
+			y = (y ^ (y >> 27)) * 0x94d049bb133111eb
+			prefix[i] = byte((y ^ (y >> 31)) >> 33)
+			if prefix[i] == c {
+				prefix[i] ^= 0x55
+			}
+		}
+	}
 	suffix := mk("suffix", genSize(t, "suffixLen", 40, 0, 1))
 	r := 32 + genSize(t, "runLen", 600, 0, 1, 32, 33, 64)
 	stream := append([]byte{}, prefix...)
@@ -241,7 +259,7 @@ func genRunHistory(t *rapid.T, x *parserExec) {
 	for steps := 0; pos < len(stream) && steps < 200 && !x.dead; steps++ {
 		room := cc.BufferSize - x.buffered()
 		n := len(stream) - pos
-		if rapid.IntRange(0, 3).Draw(t, "partial") == 0 {
+		if noiseBlocks == 0 && rapid.IntRange(0, 3).Draw(t, "partial") == 0 {
 			n = 1 + rapid.IntRange(0, n-1).Draw(t, "chunk")
 		}
 		if n > room {
@@ -253,7 +271,7 @@ func genRunHistory(t *rapid.T, x *parserExec) {
 		}
 		// parse some or all of it
 		k := x.unparsed() + 1
-		if rapid.IntRange(0, 2).Draw(t, "parseSome") == 0 {
+		if noiseBlocks == 0 && rapid.IntRange(0, 2).Draw(t, "parseSome") == 0 {
 			k = 1 + rapid.IntRange(0, 3).Draw(t, "nparse")
 		}
 		for ; k > 0 && x.unparsed() > 0 && !x.dead; k-- {
@@ -321,6 +339,18 @@ func TestC19Runs(t *testing.T) {
 						cfg.ShrinkSize = 0
 					}
 				}
+				noiseBlocks := 0
+				if kind != "GSAP" && kind != "OSAP" && rapid.IntRange(0, 5).Draw(t, "noisePrefix") == 0 {
+					// a long stretch without a match in front of the run,
+					// ending exactly at a block end
+					cfg.BlockSize = rapid.SampledFrom([]int{64, 100, 256, 512, 1024, 2048}).Draw(t, "noiseBlockSize")
+					cfg.BufferSize = 16384
+					cfg.ShrinkSize = rapid.SampledFrom([]int{0, 1024}).Draw(t, "noiseShrink")
+					if cfg.WindowSize > 16384 {
+						cfg.WindowSize = 0
+					}
+					noiseBlocks = (1100+cfg.BlockSize-1)/cfg.BlockSize + rapid.IntRange(0, 2).Draw(t, "noiseMore")
+				}
 				x, err := newParserExec(cfg)
 				if err != nil {
 					st.class("config-rejected:" + kind)
@@ -329,7 +359,7 @@ func TestC19Runs(t *testing.T) {
 				x.keepBlocks = true
 				beginCase("C19", "runs-"+kind, func() any { return x.Case() })
 				defer endCase() // also when rapid abandons the case half-way (fuzzing: input used up)
-				genRunHistory(t, x)
+				genRunHistoryOpt(t, x, noiseBlocks)
 				if !x.dead {
 					checkRunBlocks(x)
 				}
